@@ -148,6 +148,7 @@ async fn run(sc: Value) {
         results.push(json!({"op": "deploy", "ok": r.is_ok(), "err": r.err().map(|e| e.to_string())}));
     }
     let mut pids: Vec<String> = Vec::new();
+    let mut clock_base: i64 = 0;
     let mut snapshots: Vec<Value> = Vec::new();
     for st in sc["steps"].as_array().unwrap_or(&vec![]) {
         let op = st["op"].as_str().unwrap_or("");
@@ -329,13 +330,20 @@ async fn run(sc: Value) {
             }
             "tick" => {
                 if let Some(off) = st["clock_offset"].as_i64() {
-                    acts::verif::set_clock_offset(off);
+                    acts::verif::set_clock_offset(clock_base + off);
                 }
                 acts::verif::tick(&engine);
                 results.push(json!({"op": "tick"}));
             }
             "clock" => {
-                acts::verif::set_clock_offset(st["offset"].as_i64().unwrap_or(0));
+                if let Some(phase) = st["phase"].as_i64() {
+                    // shift the engine clock so that its sub-second phase is `phase` now (the counterexample may depend on it)
+                    let now = std::time::SystemTime::now().duration_since(std::time::UNIX_EPOCH).unwrap().as_millis() as i64;
+                    clock_base = (phase - now % 1000 + 1000) % 1000;
+                    acts::verif::set_clock_offset(clock_base);
+                } else {
+                    acts::verif::set_clock_offset(clock_base + st["offset"].as_i64().unwrap_or(0));
+                }
             }
             "uncache" => {
                 let pi = st["pid_index"].as_u64().unwrap_or(0) as usize;
@@ -361,8 +369,9 @@ async fn run(sc: Value) {
         settle(&engine, &obs, &pids).await;
         let mut ps = Vec::new();
         for p in &pids {
-            let info = engine.executor().proc().get(p);
-            ps.push(json!({"pid": p, "state": info.as_ref().map(|i| i.state.clone()).unwrap_or("missing".to_string()), "tasks": tasks_of(&engine, p)}));
+            // the store row, not executor.proc().get(): that call reloads an evicted process into the cache (the observation would change the run)
+            let state = acts::verif::procs(&engine).find(p).map(|r| r.state).unwrap_or("missing".to_string());
+            ps.push(json!({"pid": p, "state": state, "tasks": tasks_of(&engine, p)}));
         }
         let (lv, sp, stt) = stored_dump(&engine, &pids);
         snapshots.push(json!({"procs": ps, "nmsg": obs.messages.lock().unwrap().len(), "nevents": obs.events.lock().unwrap().len(),
@@ -370,8 +379,8 @@ async fn run(sc: Value) {
     }
     let mut procs = Vec::new();
     for p in &pids {
-        let info = engine.executor().proc().get(p);
-        procs.push(json!({"pid": p, "state": info.as_ref().map(|i| i.state.clone()).unwrap_or("missing".to_string()), "tasks": tasks_of(&engine, p)}));
+        let state = acts::verif::procs(&engine).find(p).map(|r| r.state).unwrap_or("missing".to_string());
+        procs.push(json!({"pid": p, "state": state, "tasks": tasks_of(&engine, p)}));
     }
     let mut live = Vec::new();
     for p in &pids {
